@@ -53,10 +53,13 @@ TABLE = {
     'C04': dict(
         text="Theorems about the model of the since-date binary seek "
              "(try_find_line_with_date, __getitem__, bisect_left, run, "
-             "apply_to_file) against the first-in-window spec; see "
-             "Props/C04.v for which layers are full and which are _partial.",
-        note="timestamp matcher is an oracle (line start -> option "
-             "seconds); gzip not modelled.",
+             "apply_to_file, destructive and non-destructive) against the "
+             "first-in-window spec under the stated hypotheses (C04's h0-h3); "
+             "every layer is a full statement (no _partial theorem).",
+        note="the regex engine is an oracle (pattern -> match at start); "
+             "pattern choice, field precedence and the window hand-over are "
+             "extracted programs proved equal to Model/TsMatcher.v "
+             "(Props/TsMatcher.v); gzip enters through C12's stream model.",
         tech="Coq proof (bisect over monotone probe) + differential "
              "correspondence with patched horizons", ref="4/C04"),
     'C05': dict(
@@ -162,8 +165,9 @@ TABLE = {
              "window selection, pass iff ts >= current - window, boundary "
              "passes, undated undecided, counters; proleptic Gregorian "
              "ordinal strictly monotone.",
-        note="timestamp regex matching is an oracle; datetime arithmetic is "
-             "modelled and diffed against datetime.",
+        note="only the regex engine is an oracle (Props/TsMatcher.v ties "
+             "TimestampMatcherBase and extracted_datetime to the model); "
+             "datetime arithmetic is modelled and diffed against datetime.",
         tech="Coq proof about translated source expressions + differential "
              "correspondence", ref="4/C16"),
     'C17': dict(
@@ -171,7 +175,9 @@ TABLE = {
              "(results = |collection|, lines from the positioned offset, "
              "searches per registration, jobs), independent of earlier "
              "stats.",
-        note="rides on the C01/C02/C03 models.",
+        note="rides on the C01/C02/C03 models; the reset dictionary, the "
+             "four increments and the merge operator are read off the "
+             "source (Gen/XStats.v, Gen/Exprs.v).",
         tech="Coq proof over run model + differential correspondence",
         ref="4/C17"),
     'C18': dict(
@@ -179,7 +185,10 @@ TABLE = {
              "run() dispatch test (Gen/Exprs.v): pool size = min(files, "
              "max_parallel_tasks or 1, CPUs); a pool of n workers uses <= n "
              "distinct processes for every assignment; single file in "
-             "process; one submit per catalog entry (skeleton checker).",
+             "process; one submit per catalog entry (skeleton checker); over "
+             "every event sequence of run() at most one dispatch and of "
+             "_run_mp() at most one pool (Model/CallCount.v); the files "
+             "counted are the catalog entries.",
         note="ProcessPoolExecutor's contract (each task once, <= max_workers "
              "processes) is trusted and observed by T2 (partial).",
         tech="Coq proof about translated source expression + observed real "
